@@ -979,6 +979,28 @@ impl<'a> G<'a> {
                 }
             }
         }
+        if self.rng.chance(1, 2) {
+            // a stream still in progress, with live handles, when the end comes
+            if self.role == "client" {
+                self.req(false, "POST");
+                self.op("cn_poll".to_string());
+            } else {
+                let sid = self.next_peer_sid;
+                self.next_peer_sid += 2;
+                let iws = self.our_iws;
+                self.streams.insert(sid, PeerStream { credit: iws, headers_seen: true, ..Default::default() });
+                self.peer(wire(1, 4, sid, &[0x83, 0x86, 0x84, 0x41, 0x01, b'a']));
+                self.op("cn_poll".to_string());
+                let a = self.op("cn_accept".to_string());
+                if let Some(rest) = Self::field(&a, "r=").strip_prefix("ok:") {
+                    let p: Vec<&str> = rest.split(':').collect();
+                    let sid: u32 = p[1].parse().unwrap_or(0);
+                    self.nslots += 1;
+                    self.slot_sid.push(sid);
+                    self.accepted.insert(sid);
+                }
+            }
+        }
         if self.role == "server" && self.rng.chance(1, 3) {
             // graceful shutdown: GOAWAY(2^31-1) + PING, the final GOAWAY once that PING is acknowledged
             self.op("cn_graceful".to_string());
@@ -1042,7 +1064,8 @@ impl<'a> G<'a> {
             _ => {}
         }
         self.op("cn_dropconn".to_string());
-        for k in 0..self.nslots.min(6) {
+        let lo = self.nslots.saturating_sub(6);
+        for k in lo..self.nslots {
             if self.role == "client" {
                 self.op(format!("cn_resp {}", k));
             }
